@@ -210,3 +210,29 @@ CHECKS["C20"] = dict(
          "Digest challenge.",
     design="5 C20", note=ATLAS_NOTE,
     technique="TLC-enumerated server behaviours x faults replayed on the unmodified CLI / library; whole-artefact scan for the key in several encodings; server-side digest verification")
+
+CHECKS["C09"] = dict(
+    level="fault_enumeration",
+    text="spec/Crypto.tla models the two commands stage by stage (choke point -> Encrypt -> base64 -> JSON leaf; key file -> base64 decode -> Decrypt "
+         "-> print) with the cipher axiomatised as a deterministic AEAD; TLC checks RoundTrip, NeverWrongPlaintext and NoPlaintextInOutput over 16 leaf "
+         "classes x 13 positions x {same, other key} x 11 alterations (flip first / middle / last byte, truncations, extension, base64 character, "
+         "padding, empty, not base64). The scenarios are replayed end to end through `redact --encrypt` (fresh key files) and `decrypt`, the "
+         "ciphertext taken from the exact leaf position of the real output; verdict: `Raw value:` equals the original byte for byte, or a "
+         "non-zero exit without any plaintext. The axioms are tested on the real Encrypt / Decrypt: round trips up to 8 KiB, wrong keys, every "
+         "single-bit flip and every truncation of sample ciphertexts. TLA+ decides the system part; the cipher's algebra is an axiom (DESIGN 6).",
+    design="5 C09", note="Trusted: TLC, lib/jsonx.py, the overlay crypto op, and the DAEAD axioms of spec/Crypto.tla - which are tested against the real "
+                         "functions (exhaustive single-byte corruption of sample ciphertexts), not proved.",
+    technique="TLA+ pipeline spec with axiomatised DAEAD; TLC-enumerated scenario space (class x position x key x alteration) replayed end to end through `redact --encrypt` and `decrypt`; axiom tests on the real functions")
+
+CHECKS["C13"] = dict(
+    level="model_checking",
+    text="spec/Pseudonym.tla: HashName and its write-only side table at string level over an alphabet containing '$' and '.', the hash an abstract "
+         "injective tagging; TLC checks ComponentWise, DollarIrrelevant, HistoryFree and Bijective over every name up to the length bound x every "
+         "call history. Every history is replayed in order on the real function (fresh side table per history, two prefixes, two concretisations of "
+         "the alphabet) and one global component <-> pseudonym bijection is demanded across all histories; injectivity, stability in a second "
+         "process with reversed call order and compositionality are checked on a dictionary (all strings <= 3 over 40 symbols + generated names; "
+         "10^6 in the thorough tier) without re-computing any hash; through the real CLI the same names must get the same pseudonyms under flag "
+         "sets that must not matter (-w / -f, value flags, --encrypt with two different key files, reversed input).",
+    design="5 C13", note="Trusted: TLC, the overlay hashname / hashseq ops, lib/jsonx.py. Collision-freedom of the truncated hash is established on "
+                         "the dictionary actually run, not for all strings (DESIGN section 6).",
+    technique="TLA+ string-level spec of the pseudonym function and its side table; TLC-enumerated call histories replayed on the real function; global bijection, dictionary and cross-process / cross-flag judges")
